@@ -1,21 +1,43 @@
 #!/bin/sh
-# tools/seed_matrix.sh : every seeded change x every quick check, each in the seed's own scratch
-# worktree (PYTHONPATH override), so /repo is not touched.  Output: /verif/seeded/matrix.txt
+# tools/seed_matrix.sh [seed dirs...] : every seeded change x every quick check whose property is
+# anchored in a file the change touches.  Runs a *committed snapshot* of /verif (so edits in
+# progress cannot leak in) against a scratch worktree of /repo carrying the change (PYTHONPATH
+# override; /repo itself is not touched).  Output: /verif/seeded/matrix.txt
+snap=/tmp/verif_snap_$$
+rm -rf $snap; mkdir -p $snap
+git -C /verif archive HEAD | tar -x -C $snap
+ln -s /verif/.venv $snap/.venv
 out=/verif/seeded/matrix.txt
 : > $out
-for id in C01 C02 C03 C04 C05 C06 C07 C08 C09 C10 C11 C12 C13 C15 C16 C17 C18 C19; do
-  wt=/tmp/mx_$id
+seeds=${@:-$(cd /verif/seeded && ls -d */ | tr -d /)}
+for sd in $seeds; do
+  [ -f /verif/seeded/$sd/patch.diff ] || continue
+  wt=/tmp/mx_$sd
   git -C /repo worktree remove --force $wt 2>/dev/null
   git -C /repo worktree add -q --detach $wt HEAD
-  git -C $wt apply /verif/seeded/$id/patch.diff
-  line="$id:"
-  for c in C01 C02 C03 C04 C05 C06 C07 C08 C09 C10 C11 C12 C13 C15 C16 C17 C18 C19; do
-    cd /verif && PYTHONPATH=$wt ./check $c --no-evidence > /tmp/mx_${id}_$c.out 2>&1; rc=$?
+  git -C $wt apply /verif/seeded/$sd/patch.diff || { echo "$sd: patch does not apply" >> $out; git -C /repo worktree remove --force $wt; continue; }
+  checks=$(python3 - "$sd" <<'PY'
+import json, re, sys, fnmatch
+sd = sys.argv[1]
+files = set(re.findall(r'^diff --git a/(\S+)', open('/verif/seeded/%s/patch.diff' % sd).read(), re.M))
+own = json.load(open('/verif/seeded/%s/meta.json' % sd))['property']
+out = [own]
+for l in open('/verif/properties.jsonl'):
+    p = json.loads(l)
+    if p['id'] != own and any(fnmatch.fnmatch(f, a) for f in files for a in p['anchors']['files']):
+        out.append(p['id'])
+print(' '.join(out))
+PY
+)
+  line="$sd [$checks]:"
+  for c in $checks; do
+    ( cd $snap && PYTHONPATH=$wt ./check $c --no-evidence > /tmp/mx_${sd}_$c.out 2>&1 ); rc=$?
     [ $rc -eq 1 ] && line="$line $c"
-    [ $rc -eq 3 ] && line="$line ($c:harness-error)"
-    rm -f /tmp/mx_${id}_$c.out
+    [ $rc -eq 3 ] && line="$line ($c:exit3)"
+    rm -f /tmp/mx_${sd}_$c.out
   done
   echo "$line" >> $out
   git -C /repo worktree remove --force $wt
 done
+rm -rf $snap
 echo done >> $out
